@@ -244,6 +244,7 @@ PROPS = {
         "technique": "runtime history monitor: server.close() and wait_for_shutdown() driven on the server's own runtime with call/return events logged; oracle over seq order for response completeness, close-after-every-handler-end, equal waiter results, refused port, deadlock by the re-run rule",
         "engines": [
             {"name": "c17-shutdown", "bin": "vmon_hist", "package": "hist"},
+            {"name": "c17-h2", "bin": "vmon_hist", "package": "hist"},
             {"name": "c17-tls", "bin": "vmon_tls", "package": "tlsmon"},
             asan("C17", "c17-shutdown", "hist", "vmon_hist"),
         ],
